@@ -592,6 +592,46 @@ fn main() {
     }
     cx.rec.end_case(cx.class, cx.oks > 0 && cx.errs > 0);
 
+    // ---------------------------------------------------------------- the UDP receive path (oracle only)
+    // what a node really decodes with is `UdpNetwork::receive`: it must apply the same rule as `network::deserialize`
+    // (a datagram with trailing or missing bytes is dropped, the next good datagram is delivered)
+    {
+        use alpenglow::network::{Network, UdpNetwork, localhost_ip_sockaddr};
+        cx.rec.begin_case("udp-receive-path");
+        let rt = tokio::runtime::Builder::new_current_thread().enable_all().build().expect("rt");
+        let net: UdpNetwork<Transaction, Transaction> = { let _g = rt.enter(); UdpNetwork::new_with_any_port() };
+        let sock = std::net::UdpSocket::bind("127.0.0.1:0").expect("bind");
+        let to = localhost_ip_sockaddr(net.port());
+        let n_rounds = if args.thorough { 40 } else { 8 };
+        for k in 0..n_rounds {
+            let glen = 1 + rng.below(400) as usize;
+            let good = Transaction(rng.bytes(glen)).ser();
+            let mut bad = good.clone();
+            // (datagrams longer than the MTU are cut by the kernel to the receive buffer before any decoder sees them:
+            //  not judged here)
+            let kind = match k % 2 {
+                0 => { let extra = 1 + rng.below(9) as usize; bad.extend(rng.bytes(extra)); "trailing bytes" }
+                _ => { let cut = 1 + rng.below(4) as usize; bad.truncate(bad.len().saturating_sub(cut)); "truncated" }
+            };
+            let marker = Transaction({ let mut m = vec![0xC1, 0x9A, k as u8]; m.extend(rng.bytes(8)); m });
+            let _ = sock.send_to(&bad, to);
+            std::thread::sleep(std::time::Duration::from_millis(5));
+            let _ = sock.send_to(&marker.ser(), to);
+            let got = rt.block_on(async { tokio::time::timeout(std::time::Duration::from_secs(5), net.receive()).await });
+            let got_bytes = match got { Ok(Ok(t)) => Some(t.0), _ => None };
+            cx.rec.count(&format!("udp:{}", if got_bytes.is_some() { "received" } else { "timeout" }));
+            // loss on loopback is not expected; a timeout is not judged (the property is about what is *delivered*)
+            if let Some(g) = got_bytes {
+                cx.rec.oracle(g == marker.0, "c19-udp-path-accepts-malformed", || format!("UdpNetwork::receive delivered a message of {} payload bytes decoded from a datagram with {kind} ({} bytes on the wire) instead of dropping it", g.len(), bad.len()));
+                if g != marker.0 {
+                    // drain the marker
+                    let _ = rt.block_on(async { tokio::time::timeout(std::time::Duration::from_millis(500), net.receive()).await });
+                }
+            }
+        }
+        cx.rec.end_case(0, true);
+    }
+
     let extra = serde_json::json!({ "validator_counts": ns, "slice_sizes": sizes.len(), "max_encoded_len": cx.max_len, "mtu": MTU_BYTES });
     cx.rec.finish(&args, extra);
 }
